@@ -168,10 +168,18 @@ def check_case(ctx, cs):
                     if ev is not None:
                         ob2.evaluator = ev
                     got = ob2.derivatives(*p, order=2)
+                    got1 = ob2.derivatives(*p, order=1)         # (a lower order requested on its own gives the same leading entries)
                 except Exception as e:
                     ctx.violate(site.replace("evaluate_single", "derivatives"), tg + ctag + ["evaluator=" + ename, "raises"], small, {"exception": repr(e)[:200]})
                     continue
                 okd = True
+                try:
+                    if pd == 1:
+                        okd = close_seq([list(x) for x in got1], [list(x) for x in got[:2]], 1e-9)
+                    else:
+                        okd = close_seq([list(got1[0][0]), list(got1[1][0]), list(got1[0][1])], [list(got[0][0]), list(got[1][0]), list(got[0][1])], 1e-9)
+                except Exception:
+                    okd = False
                 if pd == 1:
                     for k in range(3):
                         e = [float(x) / (a ** k) for x in frv(o["ders"][k])]
